@@ -36,12 +36,17 @@ impl Workload {
 }
 
 pub fn gen_workload(ctx: &Ctx, p: &Profile, max_batches: usize, max_rows: usize, allow_empty_batch: bool) -> Workload {
+    gen_workload_from(ctx, p, max_batches, 0, max_rows, allow_empty_batch)
+}
+
+/// Batches of `min_rows + 0..=max_rows` rows.
+pub fn gen_workload_from(ctx: &Ctx, p: &Profile, max_batches: usize, min_rows: usize, max_rows: usize, allow_empty_batch: bool) -> Workload {
     let schema = gen::gen_schema(ctx, p);
     let nb = 1 + ctx.below(max_batches, "wl.batches");
     let mut batches = Vec::new();
     let mut logical = Vec::new();
     for _ in 0..nb {
-        let mut rows = ctx.size(max_rows, "wl.rows");
+        let mut rows = min_rows + ctx.size(max_rows, "wl.rows");
         if rows == 0 && !allow_empty_batch {
             rows = 1;
         }
